@@ -6,7 +6,7 @@ CONSTANTS
   Outcomes = {"success", "revert", "panic", "failflag", "stuck"}
   Replies = {"sat_valid", "sat_abstract", "unsat", "unsat_rc1", "unsat_shared", "unknown", "timeout", "garbage", "empty", "nonzero", "crash", "spawnfail"}
   Replies2 = {"sat_valid", "sat_abstract", "unsat", "unsat_rc1", "unknown", "timeout", "garbage", "empty", "nonzero", "crash", "spawnfail"}
-  StuckReplies = {"sat_valid", "sat_abstract", "unsat", "unsat_rc1", "unknown", "timeout", "garbage", "empty", "nonzero", "crash", "spawnfail"}
+  StuckReplies = {"sat_valid", "sat_abstract", "unsat", "unsat_rc1", "unknown", "timeout", "garbage", "empty", "nonzero", "crash"}
   EarlySet = {TRUE, FALSE}
   CacheSet = {TRUE, FALSE}
   RefinableSet = {TRUE, FALSE}
@@ -16,4 +16,7 @@ CONSTANTS
   RecordHist = TRUE
   Canon = TRUE
   Coarse = FALSE
+  MutPrecedence = FALSE
+  MutNoCatch = FALSE
+  KilledMayRaise = TRUE
 INVARIANTS TypeOK PassOnlyIfClean VerdictModuloKnown OrderIndependenceModuloKnown ExitNonZeroIffNotAllPass ValidNeverAbstract OneOutputPerQuery
